@@ -52,7 +52,11 @@ func main() {
 			fmt.Printf("%s floor=%d thorough=%v  %s\n", ru.Name(), ru.Floor, ru.Thorough, ru.Decides)
 		}
 		for _, m := range mutants {
-			fmt.Printf("mutant %s expects %s\n", m.Name, strings.Join(m.Expect, ","))
+			if m.Benign {
+				fmt.Printf("mutant %s expects silence\n", m.Name)
+			} else {
+				fmt.Printf("mutant %s expects %s\n", m.Name, strings.Join(m.Expect, ","))
+			}
 		}
 		return
 	}
